@@ -684,6 +684,11 @@ def run(ctx):
                 universe.add(n.attr)
             elif isinstance(n, (ast.FunctionDef, ast.ClassDef)):
                 universe.add(n.name)
+            elif isinstance(n, ast.Call) and isinstance(n.func, ast.Name) \
+                    and n.func.id == "setattr" and len(n.args) == 3 and \
+                    isinstance(n.args[1], ast.Constant) and \
+                    isinstance(n.args[1].value, str):
+                universe.add(n.args[1].value)
         for n in m.tree.body:       # module-level names
             if isinstance(n, ast.Assign):
                 for t in n.targets:
